@@ -104,4 +104,35 @@ example : tiled 10 exLog = true := by decide
 example : wfRun [.dispatch, .store] exLog { state := 10 } exOps = true := by decide
 example : dispatchedIds (srun [.dispatch, .store] { state := 10 } exOps).2 = [1, 2, 3, 4] := by decide
 
+/-! ### The whole manager model on the two D11 histories -/
+
+/-- The regenerated orders with the pre-repair routing (everything re-routed). -/
+def preRepair : Orders := { orders with ownDirect := false, chOwnDirect := false }
+
+/-- Stored pts 10; `msg 1 @11`, `delete 2 @12` happen offline; `updatesTooLong`. -/
+def commonHistory (O : Orders) : List Event :=
+  ((Mgr.start O { log := [⟨1, .msg, 0, 11, 1⟩, ⟨2, .other, 0, 12, 1⟩], p0 := 10, q0 := 0, c0 := [] } 10 0 []).runActions O
+    [.emit 2, .tooLong]).trace
+
+/-- Channel 5 at pts 5; `channel msg 1 @6`, `channel delete 2 @7` happen offline; `updateChannelTooLong`. -/
+def channelHistory (O : Orders) : List Event :=
+  ((Mgr.start O { log := [⟨1, .chmsg, 5, 6, 1⟩, ⟨2, .chother, 5, 7, 1⟩], p0 := 10, q0 := 0, c0 := [(5, 5)] } 10 0 [(5, 5)]).runActions O
+    [.emit 2, .chTooLong 5]).trace
+
+/-- Manager model, pre-repair routing, common history: only the message reaches the handler while
+the state is persisted as 12. -/
+theorem C02_counterexample_common :
+    commonHistory preRepair = [.apiDiff 10 0, .apiDiff 10 0, .dispatch [1], .storeState 12 0] := by decide
+
+/-- Manager model, pre-repair routing, channel history: the delete goes to the main loop and back
+and is dropped as outdated. -/
+theorem C02_counterexample_channel :
+    channelHistory preRepair =
+      [.apiDiff 10 0, .apiChDiff 5 5, .storeChan 5 5, .apiChDiff 5 5, .dispatch [1], .storeChan 5 7] := by decide
+
+/-- With the regenerated (repaired) routing both histories deliver everything before persisting. -/
+example : commonHistory orders = [.apiDiff 10 0, .apiDiff 10 0, .dispatch [1, 2], .storeState 12 0] := by decide
+example : channelHistory orders =
+    [.apiDiff 10 0, .apiChDiff 5 5, .storeChan 5 5, .apiChDiff 5 5, .dispatch [1, 2], .storeChan 5 7] := by decide
+
 end TdModel.C02
